@@ -5,13 +5,24 @@ import numpy as np
 from .alg import Poly, AT, to_at, map_deps, _key
 
 
-def canon_atom(a, keep_fp=False, keep_deps=False):
+def _depf(keep_deps):
+    if keep_deps is True:
+        return lambda s: s
+    if not keep_deps:
+        return lambda s: set()
+    return lambda s: {x for x in s if keep_deps(x)}
+
+
+def canon_atom(a, keep_fp=False, keep_deps=False, keep_sg=False):
+    """keep_deps: False (strip), True (keep) or a predicate on dependency labels (e.g. keep facet tags)"""
     tag = a[0]
+    if tag == 'P' and not keep_sg and a[4]:
+        a = a[:4] + (False,)
     if tag == 'U':
         slots = tuple(s for s in a[4] if not s.endswith('=absent'))
-        return ('U', a[1], a[2], a[3], slots, a[5] if keep_fp else (), a[6] if keep_deps else frozenset())
+        return ('U', a[1], a[2], a[3], slots, a[5] if keep_fp else (), frozenset(_depf(keep_deps)(set(a[6]))))
     if tag in ('X', 'T', 'P', 'F'):
-        return a if keep_deps else map_deps(a, lambda s: set())
+        return map_deps(a, _depf(keep_deps))
     if tag in ('Mean', 'Sum'):
         return (tag, a[1], canon(a[2], keep_fp, keep_deps))
     if tag in ('Abs', 'Inv'):
